@@ -27,9 +27,11 @@ RULES = {
 PROBES = ["restart_before_allowed", "restart_between_allowed_and_deadline", "restart_between_deadline_and_rx_timeout",
           "restart_in_strobe_cycle", "ran_to_rx_timeout", "start_from_second_interface", "both_interfaces_start_together",
           "held_start", "speed_change_at_start", "speed_change_while_idle", "speed_high", "speed_full", "speed_low",
-          "strobes_after_reset_checked"]
+          "strobes_after_reset_checked", "device_level_strobes_checked"]
 META = {
-    "components_real": ["luna.gateware.usb.usb2.packet.USBInterpacketTimer", "InterpacketTimerInterface"],
+    "components_real": ["luna.gateware.usb.usb2.packet.USBInterpacketTimer", "InterpacketTimerInterface",
+                        "every 16th run: complete USBDevice (token detector timer + shared receiver timer as an endpoint sees them; "
+                        "speed selected by the real USBResetSequencer after a restricted bus reset)"],
     "components_stubbed": ["timer users: literal start strobes / speed pin from the scenario"],
     "assumptions": ["speed changes only in a cycle with a start strobe (that one cycle is not checked) or when every threshold of the "
                     "previous measurement has long passed (> 700 cycles since the last start)",
@@ -60,7 +62,38 @@ def spec_table(clock_hz):
     return table
 
 
+DEVICE_EVERY = 16       # every 16th run (index % 16 == 7) measures the timers where endpoints see them, inside a complete USBDevice
+
+
 def gen(rng, tier, index):
+    if index % DEVICE_EVERY == 7:
+        return _gen_device(rng, tier, index)
+    return _gen_timer(rng, tier, index)
+
+
+def _gen_device(rng, tier, index):
+    """ Device-level run: OUT transactions (token + data packet) against a complete USBDevice; the `ready_for_response` strobes
+        an endpoint is shown (token detector's private timer, receiver's shared timer) are timed against the end of the token /
+        data packet.  V2 (60 MHz, ULPI timing) devices are strapped to full or to low speed from power-on (the reset sequencer
+        selects low speed only then); V1 is the 12 MHz full-speed-only construction. """
+    variant = rng.choice(["V1", "V2", "V2", "V2"])
+    cfg = {"dut": "device", "variant": variant, "byte_period": rng.choice([1, 1, 2, 5]) if variant == "V2" else 1,
+           "pre": rng.choice([1, 1, 2, 4]), "post": rng.choice([0, 0, 1]),
+           "speed": rng.choice(["full", "low", "low"]) if variant == "V2" else "full"}
+    ops = []
+    tog = 0
+    for _ in range(rng.randint(4, 12)):
+        if variant == "V2" and rng.random() < 0.15:
+            ops.append({"op": "reset", "se0": rng.choice([320, 400, 1000])})         # a bus reset keeps the strapped speed
+            tog = 0
+        n = rng.choice([0, 1, 2, 8, rng.randint(0, 16)])
+        ops.append({"op": "out", "ep": rng.choice([1, 1, 2, 7]), "pid": f"DATA{tog}", "data": bytes(rng.getrandbits(8) for _ in range(n)).hex(),
+                    "tok_gap": rng.choice([2, 2, 3, 5, 9]), "gap": rng.choice([100, 120, 200, 400])})
+        tog ^= 1
+    return {"engine": "usb2_device", "config": cfg, "ops": ops}
+
+
+def _gen_timer(rng, tier, index):
     config = rng.choice(["60", "60", "60", "60fs", "12fs"])
     n_if = rng.choice([1, 2, 2])
     if config == "60":
@@ -188,9 +221,103 @@ def _render(cfg, ops):
     return wave, unchecked, idle_changes
 
 
+def _run_device(scn):
+    from engines.usb2_device import device_bench, IDLE_INIT
+    from models import usb2
+    cfg, ops = scn["config"], scn["ops"]
+    variant = cfg["variant"]
+    clock = 60e6 if variant == "V2" else 12e6
+    table = spec_table(clock)
+    bench = device_bench({"variant": variant, "control": "standard", "spy": True,
+                          "endpoints": [{"kind": "stream_out", "ep": 1, "mps": 64, "buffer": None}]})
+    viol = Violations()
+    probes = {p: 0 for p in PROBES}
+    marks = []          # (kind, t_end, speed reported by the device at t_end)
+    LINE_SE0 = 0
+
+    def script(h):
+        o = yield
+        yield from h.idle(120)          # let the strobes the timers produce on their own after power-on pass
+        for op in ops:
+            if op["op"] == "reset":
+                h.set_pins(line_state=LINE_SE0)
+                yield from h.idle(op["se0"])
+                h.set_pins(line_state=line_idle)
+                yield from h.idle(40)
+                continue
+            _, t_end = yield from h.send(usb2.token_packet("OUT", 0, op["ep"]), info="tok")
+            marks.append(("tok", t_end, h.sample["speed"]))
+            yield from h.idle(op["tok_gap"])
+            _, t_end = yield from h.send(usb2.data_packet(op["pid"], bytes.fromhex(op["data"])), info="data")
+            marks.append(("data", t_end, h.sample["speed"]))
+            yield from h.idle(op["gap"])
+
+    class Mon:
+        def __init__(self):
+            self.tok, self.rx, self.speed = [], [], []
+
+        def observe(self, t, o):
+            if o["spy_ready_for_response"]:
+                self.tok.append(t)
+            if o["spy_rx_ready_for_response"]:
+                self.rx.append(t)
+            return False
+
+    low = cfg["speed"] == "low"
+    line_idle = 0b10 if low else 0b01
+    host = usb2.UTMIHost(script, byte_period=cfg["byte_period"], pre=cfg["pre"], post=cfg["post"], line_idle=line_idle)
+    mon = Mon()
+    init = dict(IDLE_INIT)
+    init.update(out1_ready=1, line_state=line_idle, full_speed_only=int(not low), low_speed_only=int(low))
+    cap = 600 + sum(op.get("se0", 0) + 60 if op["op"] == "reset" else
+                    op["tok_gap"] + op["gap"] + (len(op["data"]) // 2 + 8) * (cfg["byte_period"] + 1) + 2 * (cfg["pre"] + cfg["post"] + 4) for op in ops)
+    log = bench.run([host, mon], cap, init=init)
+    if not host._done:
+        raise RuntimeError("host script did not finish within the cycle cap")
+    # ---- oracle: one strobe per token / data packet, at end + allowed(speed reported by the device) + d, one d per kind ----
+    offs = {"tok": set(), "data": set()}
+    want_speed = 2 if low else 1
+    for kind, t_end, spd in marks:
+        pulses = mon.tok if kind == "tok" else mon.rx
+        if spd != want_speed:
+            raise RuntimeError(f"device reports speed {spd}, strapped for {cfg['speed']}")
+        if spd not in table:
+            raise RuntimeError(f"device reports speed {spd} in a configuration that cannot select it")
+        allowed = table[spd][0]
+        nxt = [t for t in pulses if t >= t_end]
+        lim = t_end + allowed + 8
+        mine = [t for t in nxt if t <= lim]
+        probes["speed_" + SPEED_NAME[spd].lower()] += 1
+        probes["device_level_strobes_checked"] += 1
+        if len(mine) != 1:
+            viol.add("C05.offsets", t_end, f"device-level: {kind} packet ended (rx_active low) in cycle {t_end} at speed {SPEED_NAME[spd]}; "
+                     f"expected one ready-for-response strobe {allowed} cycles later (+ a fixed registration offset), saw strobes at "
+                     f"{[t - t_end for t in mine]} cycles after the end (next strobes: {[t - t_end for t in nxt[:3]]})",
+                     config="device_" + variant, speed=SPEED_NAME[spd], what=kind + "_strobe_count")
+            break
+        offs[kind].add((mine[0] - t_end - allowed, SPEED_NAME[spd]))
+    if not viol:
+        for kind, st in offs.items():
+            ds = sorted(set(d for d, _ in st))
+            # token strobes come from the token detector's private timer, which nothing else starts: one fixed offset.  The
+            # receiver's strobe comes from the timer it shares with the endpoints, which may legitimately restart it a cycle
+            # or two after the packet (e.g. an OUT endpoint taking the data): there only the range of the offset is fixed.
+            if (kind == "tok" and len(ds) > 1) or (ds and not (-1 <= ds[0] and ds[-1] <= 4)):
+                viol.add("C05.offsets", 0, f"device-level: the {kind} ready-for-response strobe comes (allowed(speed) + d) cycles after the "
+                         f"packet end with d = {sorted(st)}: not one fixed registration offset for every speed",
+                         config="device_" + variant, speed="+".join(sorted(set(n for _, n in st))), what=kind + "_offset")
+                break
+    speeds_seen = sorted(set(spd for _, _, spd in marks))
+    sig = hashlib.blake2b(repr(("device", variant, speeds_seen, sorted(log.fsm_vectors))).encode(), digest_size=8).hexdigest()
+    return {"violations": viol.items, "cycles": log.cycles, "faults": {"bus_reset": sum(1 for op in ops if op["op"] == "reset")},
+            "probes": probes, "sig": sig, "nontrivial": len(marks) >= 4, "digest": log.digest, "fsm": len(log.fsm_vectors)}
+
+
 def run(scn):
     cfg = scn["config"]
     ops = scn["ops"]
+    if cfg.get("dut") == "device":
+        return _run_device(scn)
     config, n_if = cfg["config"], cfg["n_if"]
     if config != "60" and (cfg["speed0"] != 1 or any(op.get("speed", 1) != 1 or "idle_speed_change" in op for op in ops)):
         raise RuntimeError("fs_only configurations are only driven at FULL speed")
